@@ -58,7 +58,12 @@ class SymGraph:
             if len(b) != 1 or not isinstance(b[0], int): raise EngineError('commit id stub: ids are one concrete byte (the global position)')
             k = seg_of(a[0]); g = b[0]
             return SOME(Agg([g - bounds[k]], 'LocalCommitPosition')) if bounds[k] <= g < bounds[k + 1] and g in P else NONE()
-        self.over += [(re.compile(r'as CommitIndexSegment>::commit_id_to_pos$'), id_to_pos),
+        def ref_cast(e, c, a):
+            seg = a[0]
+            while isinstance(seg, Ref) and isinstance(seg.get(), Ref): seg = seg.get()
+            return Ref([Agg([seg.get()], 'CompositeCommitIndex')], 0)
+        self.over += [(re.compile(r'CompositeCommitIndex::new$'), ref_cast),                # #[ref_cast_custom]: &dyn CommitIndexSegment -> &CompositeCommitIndex (transparent wrapper)
+                      (re.compile(r'as CommitIndexSegment>::commit_id_to_pos$'), id_to_pos),
                       (re.compile(r'as CommitIndexSegment>::commit_id$'), lambda e, c, a: CID(gpos(a)))]
         self.index = Ref([Agg([segs[-1]], 'CompositeCommitIndex')], 0)            # CompositeCommitIndex(dyn CommitIndexSegment)
 
